@@ -354,13 +354,13 @@ func Spec() *core.Spec {
 		Families: []core.Family{
 			{Name: "exhaustive", Exhaustive: true, N: func(tier string) int {
 				if tier == core.Thorough {
-					return enumSize(4)
+					return enumSize(5)
 				}
 				return enumSize(3)
 			}, Run: func(c *core.Ctx, r *core.Rand, i int) {
 				max := 3
 				if c.Thorough() {
-					max = 4
+					max = 5
 				}
 				b, ok := enumCase(i, max)
 				if !ok {
@@ -416,7 +416,7 @@ func Spec() *core.Spec {
 			}},
 			{Name: "random", N: func(tier string) int {
 				if tier == core.Thorough {
-					return 200000
+					return 1000000
 				}
 				return 3000
 			}, Run: func(c *core.Ctx, r *core.Rand, i int) {
@@ -433,7 +433,7 @@ func Spec() *core.Spec {
 			}},
 			{Name: "wire", N: func(tier string) int {
 				if tier == core.Thorough {
-					return 600
+					return 3000
 				}
 				return 60
 			}, Run: func(c *core.Ctx, r *core.Rand, i int) {
